@@ -42,6 +42,28 @@ RULE_KINDS = {
     'head_wildcard': (['q(_) <-- e(_, _);'], ['q(1) <-- e(_, _);'], '`_` can only be used on the left-hand side'),
     'undefined_macro': (['q(x) <-- nomac!(x);'], ['q(x) <-- z(x);'], 'undefined macro'),
 }
+# the offending construct sits inside a disjunction branch, a second head, or comes out of an in-program macro
+RULE_KINDS_M = {
+    'undeclared_in_disj': ([], ['q(x) <-- e(x, _), (nope(x) | z(x));'], [], ['q(x) <-- e(x, _), (a1(x) | z(x));'], 'relation `nope` is not defined'),
+    'undeclared_head_2nd': ([], ['q(x), nope(x) <-- e(x, _);'], [], ['q(x), z(x) <-- e(x, _);'], 'relation `nope` is not defined'),
+    'undeclared_in_macro': (['macro mm($x: expr) { e($x, y), nope(y) }'], ['q(x) <-- mm!(x);'], ['macro mm($x: expr) { e($x, y), z(y) }'], ['q(x) <-- mm!(x);'], 'relation `nope` is not defined'),
+    'undeclared_neg_in_disj': ([], ['q(x) <-- e(x, _), (!nope(x) | z(x));'], [], ['q(x) <-- e(x, _), (!a1(x) | z(x));'], 'relation `nope` is not defined'),
+    'arity_in_disj': ([], ['q(x) <-- e(x, y), (z(y, y) | z(x));'], [], ['q(x) <-- e(x, y), (z(y) | z(x));'], 'wrong arity for relation `z`'),
+    'arity_in_macro': (['macro mm($x: expr) { e($x) }'], ['q(x) <-- mm!(x);'], ['macro mm($x: expr) { e($x, _) }'], ['q(x) <-- mm!(x);'], 'wrong arity for relation `e`'),
+    'arity_head_macro': (['macro hh($x: expr) { q($x, $x) }'], ['hh!(x) <-- e(x, _);'], ['macro hh($x: expr) { q($x) }'], ['hh!(x) <-- e(x, _);'], 'wrong arity for relation `q`'),
+    'strat_multihead': ([], ['a1(x), a2(x) <-- e(x, _), !a2(x);'], [], ['a1(x), a2(x) <-- e(x, _), !z(x);'], 'cannot be stratified'),
+    'strat_in_disj': ([], ['a1(x) <-- e(x, _), (z(x) | !a1(x));'], [], ['a1(x) <-- e(x, _), (z(x) | !a2(x));'], 'cannot be stratified'),
+    'strat_in_macro': (['macro ng($x: expr) { !a1($x) }'], ['a1(x) <-- e(x, _), ng!(x);'], ['macro ng($x: expr) { !z($x) }'], ['a1(x) <-- e(x, _), ng!(x);'], 'cannot be stratified'),
+    'strat_agg_multihead_cycle': ([], ['a1(x), a3(x) <-- e(x, _), agg _c = count() in a2(_);', 'a2(x) <-- a3(x);'], [], ['a1(x), a3(x) <-- e(x, _), agg _c = count() in z(_);', 'a2(x) <-- a3(x);'], 'cannot be stratified'),
+    'rebind_in_disj': ([], ['q(x) <-- e(x, y), (z(y) | let y = 3);'], [], ['q(x) <-- e(x, y), (z(y) | let _w = 3);'], 'shadows another variable'),
+    'rebind_pattern': ([], ['q(x) <-- e(x, y), p(x, ?y);'], [], ['q(x) <-- e(x, y), p(x, ?_w);'], 'shadows another variable'),
+    'rebind_agg_bound': ([], ['q(x) <-- e(x, y), agg x = min(w) in p(y, w);'], [], ['q(x) <-- e(x, y), agg _m = min(w) in p(y, w);'], 'shadows another variable'),
+    'rebind_iflet_attached': ([], ['q(x) <-- e(x, y), z(w) if let Some(x) = Some(w);'], [], ['q(x) <-- e(x, y), z(w) if let Some(_v) = Some(w);'], 'shadows another variable'),
+    'macro_rec3': (['macro m1($x: expr) { z($x), m2!($x) }', 'macro m2($x: expr) { z($x), m3!($x) }', 'macro m3($x: expr) { z($x), m1!($x) }'], ['q(x) <-- m1!(x);'],
+                   ['macro m1($x: expr) { z($x), m2!($x) }', 'macro m2($x: expr) { z($x), m3!($x) }', 'macro m3($x: expr) { z($x), a1($x) }'], ['q(x) <-- m1!(x);'], 'recursively defined Ascent macro'),
+    'macro_rec_in_disj': (['macro mm($x: expr) { (z($x) | mm!($x)) }'], ['q(x) <-- mm!(x);'], ['macro mm($x: expr) { (z($x) | a1($x)) }'], ['q(x) <-- mm!(x);'], 'recursively defined Ascent macro'),
+    'attr_on_relation': ([], [], [], [], None),
+}
 # cycles: every order of the rules of the cycle (the stratification check must not depend on rule order)
 CYC2 = (['a1(x) <-- e(x, _), !a2(x);', 'a2(x) <-- a1(x);'], ['a1(x) <-- e(x, _), !z(x);', 'a2(x) <-- a1(x);'])
 CYC2AGG = (['a1(x) <-- e(x, _), agg _c = count() in a2(_);', 'a2(x) <-- a1(x);'], ['a1(x) <-- e(x, _), agg _c = count() in z(_);', 'a2(x) <-- a1(x);'])
@@ -81,6 +103,21 @@ def main():
                 add(kind, 'pos%d' % pos, m,
                     program(m, [], BASE_DECLS, [], place(BASE_RULES, bad, pos)),
                     program(m, [], BASE_DECLS, [], place(BASE_RULES, good, pos)), frag)
+    for kind, (mb, bad, mg, good, frag) in RULE_KINDS_M.items():
+        if frag is None:
+            continue
+        for pos in positions:
+            for m in macros_rule:
+                add(kind, 'pos%d' % pos, m,
+                    program(m, [], BASE_DECLS, mb, place(BASE_RULES, bad, pos)),
+                    program(m, [], BASE_DECLS, mg, place(BASE_RULES, good, pos)), frag)
+    for m in macros_rule:
+        add('attr_on_relation', 'x', m,
+            program(m, [], place(BASE_DECLS, ['#[frobnicate] relation r3(i32);'], 2), [], BASE_RULES),
+            program(m, [], place(BASE_DECLS, ['relation r3(i32);'], 2), [], BASE_RULES), 'frobnicate')
+        add('attr_on_lattice', 'x', m,
+            program(m, [], place(BASE_DECLS, ['#[frobnicate] lattice l3(i32, i32);'], 2), [], BASE_RULES),
+            program(m, [], place(BASE_DECLS, ['lattice l3(i32, i32);'], 2), [], BASE_RULES), 'frobnicate')
     for cname, (bad, good) in (('strat_cycle2', CYC2), ('strat_cycle2agg', CYC2AGG), ('strat_cycle3', CYC3), ('strat_cycle3b', CYC3B)):
         perms = list(itertools.permutations(range(len(bad))))
         if tier != 'thorough' and len(perms) > 3:
